@@ -11,18 +11,89 @@ package checks
 import (
 	"encoding/json"
 	"fmt"
+	"io"
 	"os"
 	"path/filepath"
 	"strings"
 	"sync"
 	"sync/atomic"
+	"time"
 
 	"github.com/lidofinance/dc4bc/storage"
 	"github.com/lidofinance/dc4bc/storage/file_storage"
 
-	"verif/mc/kit"
 	"verif/mc/world"
 )
+
+// histReporter is what the history search needs of a run (kit.Run in-process; a collecting
+// stand-in when the search runs in a process of its own next to the schedule explorations, whose
+// scheduler is process-wide).
+type histReporter interface {
+	Violation(key, what string, replay interface{})
+	TimeUp() bool
+	Infra(format string, a ...interface{})
+	Cap(why string)
+	Set(key string, v interface{})
+}
+
+type c16HistResult struct {
+	Violations []struct {
+		Key, What string
+		Replay    interface{}
+	}
+	Sets  map[string]interface{}
+	Caps  []string
+	Infra string
+}
+
+type histCollector struct {
+	mu       sync.Mutex
+	res      c16HistResult
+	deadline time.Time
+	out      io.Writer
+}
+
+func (h *histCollector) Violation(key, what string, replay interface{}) {
+	h.mu.Lock()
+	defer h.mu.Unlock()
+	h.res.Violations = append(h.res.Violations, struct {
+		Key, What string
+		Replay    interface{}
+	}{key, what, replay})
+}
+func (h *histCollector) TimeUp() bool { return time.Now().After(h.deadline) }
+func (h *histCollector) Infra(format string, a ...interface{}) {
+	h.mu.Lock()
+	h.res.Infra = fmt.Sprintf(format, a...)
+	bz, _ := json.Marshal(&h.res)
+	fmt.Fprintln(h.out, string(bz))
+	os.Exit(3)
+}
+func (h *histCollector) Cap(why string) {
+	h.mu.Lock()
+	h.res.Caps = append(h.res.Caps, why)
+	h.mu.Unlock()
+}
+func (h *histCollector) Set(key string, v interface{}) {
+	h.mu.Lock()
+	h.res.Sets[key] = v
+	h.mu.Unlock()
+}
+
+// C16HistoriesChild runs the history search in this process and prints its result as one JSON line.
+func C16HistoriesChild(tier string, out io.Writer) int {
+	budget := 7 * time.Minute
+	if tier == "thorough" {
+		budget = 40 * time.Minute
+	}
+	h := &histCollector{deadline: time.Now().Add(budget), out: out}
+	h.res.Sets = map[string]interface{}{}
+	c16Histories(h, tier)
+	world.Cleanup()
+	bz, _ := json.Marshal(&h.res)
+	fmt.Fprintln(out, string(bz))
+	return 0
+}
 
 type c16Op struct {
 	Kind string // sendA sendB getA getB ignoreId ignoreOff unignore
@@ -86,7 +157,7 @@ func c16HistEnabled(h []c16Op, b c16Budget) []c16Op {
 
 // c16RunHistory executes a history on the real board and returns the first disagreement with the
 // reference model ("" if none).
-func c16RunHistory(r *kit.Run, h []c16Op) (key, what string) {
+func c16RunHistory(r histReporter, h []c16Op) (key, what string) {
 	dir := filepath.Join(world.Scratch(), fmt.Sprintf("c16h-%d", atomic.AddInt64(&c16seq, 1)))
 	_ = os.MkdirAll(dir, 0o755)
 	defer os.RemoveAll(dir)
@@ -218,8 +289,8 @@ func c16RunHistory(r *kit.Run, h []c16Op) (key, what string) {
 }
 
 // c16Histories enumerates the histories breadth-first in parallel; returns how many were run.
-func c16Histories(r *kit.Run, tier string) int {
-	b := c16Budget{Sends: 3, Ignores: 2, Unignores: 1, Gets: 2, Depth: 6}
+func c16Histories(r histReporter, tier string) int {
+	b := c16Budget{Sends: 3, Ignores: 2, Unignores: 1, Gets: 1, Depth: 6}
 	if tier == "thorough" {
 		b = c16Budget{Sends: 4, Ignores: 2, Unignores: 1, Gets: 3, Depth: 8}
 	}
